@@ -8,7 +8,7 @@ from vf.ref import r3, r5
 from vf.run import SubCheck
 
 from gbasis.evals.eval import evaluate_basis
-from gbasis.evals.eval_deriv import evaluate_deriv_basis
+from gbasis.evals.eval_deriv import EvalDeriv, evaluate_deriv_basis
 
 RULE = ("Hypothesis draws bases of 1-4 generalized mixed-type shells (l 0..6), 1-8 points from the classes {on a centre, "
         "on an axis/plane through a centre (coordinate differences exactly 0), midpoint, near, far}, a subset of the 125 "
@@ -108,6 +108,38 @@ def judge(case):
                 v.classes.append("direct-rejected")
             if dr is not None and _cmp(v, f"deriv_type='direct' cannot honour order {o} but answered with different numbers:", dr, val, tol):
                 return v
+    # the same requests through the class-level entry points (EvalDeriv(basis).construct_array_mix / _lincomb and the shell-level
+    # EvalDeriv.construct_array_contraction): both back-ends, one order triple of the case; a request the specialised back-end
+    # cannot honour must be rejected there too
+    h = int(case_hash(case), 16)
+    o = [int(x) for x in case["orders"][h % len(case["orders"])]]
+    oa = np.array(o)
+    val, tol = ref(o)
+    types = [s["type"] for s in shells]
+    ed = EvalDeriv(bas)
+    for dt in ("general", "direct"):
+        calls = [("construct_array_mix", lambda: ed.construct_array_mix(types, points=pts, orders=oa, deriv_type=dt), val, tol)]
+        if T is not None:
+            calls = [("construct_array_lincomb", lambda: ed.construct_array_lincomb(T, types, points=pts, orders=oa, deriv_type=dt), val, tol)]
+        R0c = r3.ShellRef(dict(shells[0], type="cartesian"))
+        bval, bab, bnb = r5.eval_basis([R0c], pts_c, o)
+        n0 = 1.0 / R0c.cn.reshape(-1)[:, None]
+        calls.append(("construct_array_contraction", lambda: EvalDeriv.construct_array_contraction(bas[0], pts, oa, deriv_type=dt).reshape(bval.shape),
+                      bval * n0, (1e-9 * bab + 1e-14 * bnb) * n0 + 1e-250))
+        for nm, fn, want, wtol in calls:
+            if dt == "direct" and max(o) > 2:
+                try:
+                    out = fn()
+                except Exception:  # noqa: BLE001 - rejecting the request is the documented alternative
+                    v.classes.append("class-level-direct-rejected")
+                    continue
+                if _cmp(v, f"EvalDeriv.{nm}(deriv_type='direct') cannot honour order {o} but answered with different numbers:", out, want, wtol):
+                    return v
+            else:
+                out = lib(fn)
+                if _cmp(v, f"EvalDeriv.{nm}(deriv_type={dt!r}) order {o}", out, want, wtol):
+                    return v
+    v.classes.append("class-level-entry-points")
     # an unknown back-end name must not be answered with different numbers
     o = [int(x) for x in case["orders"][0]]
     val, tol = ref(o)
